@@ -154,14 +154,28 @@ def _shard_generate(args):
         stats = Stats()
         strat = mod.strategy(tier)
 
+        from .common import case_hash
+        seen = set()
+        dup = [0]
+
+        # Hypothesis' generate phase re-emits (mutations of) earlier examples that often expand to the very same case;
+        # such duplicates are skipped (counted) and generation continues until n DISTINCT cases were evaluated
         @hypothesis.seed(derive_seed(seed, shard))
-        @settings(max_examples=n, database=None, deadline=None, derandomize=False,
+        @settings(max_examples=3 * n + 10, database=None, deadline=None, derandomize=False,
                   report_multiple_bugs=False, suppress_health_check=list(HealthCheck),
                   phases=[Phase.generate])
         @given(strat)
         def run(case):
+            if stats.evaluations >= n:
+                return
+            h = case_hash(case)
+            if h in seen:
+                dup[0] += 1
+                return
+            seen.add(h)
             stats.record(mod, case)
         run()
+        stats.hist["duplicates_skipped"] += dup[0]
         return ("ok", stats.export())
     except Exception:  # harness error
         return ("err", traceback.format_exc())
